@@ -22,7 +22,30 @@ def target_env(known, stats=None):
     return env
 
 
+def _ns(frame):
+    """abigail::xml_reader::read_access -> xml_reader"""
+    parts = frame.split("::")
+    if parts and parts[0] == "abigail" and len(parts) > 1:
+        return parts[1]
+    return parts[0] if parts else "?"
+
+
 def key_of(stderr):
+    k = _key_of(stderr)
+    if not k:
+        return k
+    # Granularity of the keys (DESIGN.md section 6): the readers validate their input with ABG_ASSERT / abort() at
+    # hundreds of places; an assertion is keyed by the source file it sits in, an abort() or a hang by the namespace of the
+    # function that calls it.  Memory errors and undefined behaviour keep their precise key (error kind + function).
+    if k.startswith("assert:"):
+        return ":".join(k.split(":")[:2])
+    if k.startswith(("abort:", "timeout:")):
+        kind, frame = k.split(":", 1)
+        return kind + ":" + _ns(frame)
+    return k
+
+
+def _key_of(stderr):
     m = re.search(r"VERIF-FINDING key=(.*)", stderr)
     if m:
         return m.group(1).strip()
@@ -62,7 +85,7 @@ def first_frame(stderr):
 
 def run_one(exe, path, known, timeout=60):
     try:
-        r = subprocess.run([exe, "-timeout=20", "-rss_limit_mb=3000", path], stdout=subprocess.PIPE, stderr=subprocess.PIPE,
+        r = subprocess.run([exe, "-timeout=10", "-rss_limit_mb=3000", path], stdout=subprocess.PIPE, stderr=subprocess.PIPE,
                            env=target_env(known), timeout=timeout)
         return r.returncode, r.stderr.decode(errors="replace")
     except subprocess.TimeoutExpired as e:
@@ -110,7 +133,7 @@ def run(pid, tier, mod):
         adir = os.path.join(rdir, "artifacts-" + name) + "/"
         os.makedirs(cdir), os.makedirs(adir)
         cmd = [exe, "-fork=%d" % j, "-ignore_crashes=1", "-ignore_timeouts=1", "-ignore_ooms=1", "-max_total_time=%d" % t,
-               "-seed=%d" % (seedv * 7919 + len(procs)), "-max_len=%d" % mod.MAX_LEN, "-timeout=20", "-rss_limit_mb=3000",
+               "-seed=%d" % (seedv * 7919 + len(procs)), "-max_len=%d" % mod.MAX_LEN, "-timeout=10", "-rss_limit_mb=3000",
                "-artifact_prefix=" + adir, "-print_final_stats=1", cdir] + ([sdir] if sdir else [])
         if getattr(mod, "DICT", None):
             cmd.insert(1, "-dict=" + os.path.join(VERIF, "cxx", mod.DICT))
@@ -144,8 +167,17 @@ def run(pid, tier, mod):
     for name, p, adir, cdir in procs:
         arts += sorted(glob.glob(adir + "*"))
     by_key = collections.defaultdict(list)
-    for a in arts[:400]:
+    nt_timeouts = 0
+    # smallest first; one confirmed artifact per key is enough, so stop re-running a key once it has been seen 3 times
+    arts.sort(key=os.path.getsize)
+    seen_pref = collections.Counter()
+    for a in arts[:int(os.environ.get("VERIF_FUZZ_MAX_ARTIFACTS") or (60 if tier == "quick" else 400))]:
         base = os.path.basename(a)
+        if base.startswith("timeout-"):
+            nt_timeouts += 1
+            if nt_timeouts > 2:
+                noise["timeout-not-reexamined"] += 1
+                continue
         if base.startswith(("slow-unit", "oom-")):
             noise[base.split("-")[0]] += 1
             continue
@@ -154,12 +186,15 @@ def run(pid, tier, mod):
             noise["not-reproduced"] += 1
             continue
         k = key_of(err) or "unclassified"
+        if k in ("timeout:?", "abort:?"):
+            noise["no-libabigail-frame"] += 1      # e.g. a loop inside elfutils: classified apart
+            continue
         if k.startswith("elfutils:"):
             noise["elfutils"] += 1      # classified separately, as the statement of C34 prescribes
             continue
         if k.startswith("timeout") or k == "oom":
             # a hang counts only if it reproduces alone with 10x the limit
-            rc2, err2 = run_one(exe, a, known, timeout=200)
+            rc2, err2 = run_one(exe, a, known, timeout=90)
             if rc2 == 0 or not (key_of(err2) or "").startswith("timeout"):
                 noise["timeout-not-reproduced"] += 1
                 continue
